@@ -41,6 +41,14 @@ var baseTree = []srcFile{
 	{path: "src/dangling", link: "/nonexistent/target"},
 	{path: "src/h", dir: true, mode: 0o755, mtime: 1600000030},
 	{path: "src/h/x", mode: 0o644, data: "other x", mtime: 1600000031},
+	// sibling directories where one name is a string prefix of the other
+	{path: "src/k", dir: true, mode: 0o755, mtime: 1600000040},
+	{path: "src/k/conf", dir: true, mode: 0o755, mtime: 1600000041},
+	{path: "src/k/conf/app.cfg", mode: 0o644, data: "app", mtime: 1600000042},
+	{path: "src/k/conf.d", dir: true, mode: 0o755, mtime: 1600000043},
+	{path: "src/k/conf.d/extra.cfg", mode: 0o644, data: "extra", mtime: 1600000044},
+	{path: "src/k/conf.d/deep", dir: true, mode: 0o755, mtime: 1600000045},
+	{path: "src/k/conf.d/deep/z.cfg", mode: 0o644, data: "z", mtime: 1600000046},
 }
 
 func materialise(root string, tree []srcFile) {
@@ -348,6 +356,12 @@ var c05KindsMore = []entrySpec{
 	{files.TypeFile, "src/d/lnk"},
 	{files.TypeFile, "src/{f1,f2}"},
 	{files.TypeFile, "src/dangling"},
+	{files.TypeFile, "src/k/conf*/*.cfg"},
+	{files.TypeConfig, "src/k/conf*"},
+	{files.TypeFile, "src/k/**/*.cfg"},
+	{files.TypeFile, "src/k"},
+	{files.TypeFile, "src/k/conf.d/**"},
+	{files.TypeFile, "src/[dh]/x"},
 }
 
 func mkEntry(k entrySpec, dst, pk string, fi int) *files.Content {
